@@ -98,6 +98,59 @@ theorem C15_ensemble (F : Fmt) (e : Exc) (own : Text) (hl : e.live = some own) (
     simp only [Hop.pre, ImgT, Exc.mem] at hi ⊢
     exact hi.2.2.2.2
 
+/-! `ImgMems` spelled out, one kind of entry at a time (so that `C15_ensemble` can be read without
+    opening `Proofs/`): `m'` is the received result list. -/
+
+theorem C15_img_nil (F : Fmt) (p : Text) (m' : Mems) : ImgMems F p .nil m' ↔ m' = .nil := by
+  simp [ImgMems]
+
+/-- a plain value arrives as the same value -/
+theorem C15_img_val (F : Fmt) (p : Text) (v : Nat) (r m' : Mems) :
+    ImgMems F p (.val v r) m' ↔ ∃ r', m' = .val v r' ∧ ImgMems F p r r' := by
+  simp [ImgMems]
+
+/-- a `RemoteException(e)` holding text `t` arrives as an exception object of `e`'s class and
+    arguments, without live traceback, with `is_remote_exception` and remote text exactly `t`,
+    and `e`'s own nested results arrive likewise -/
+theorem C15_img_rem (F : Fmt) (p : Text) (e : Exc) (t : Text) (r m' : Mems) :
+    ImgMems F p (.rem e t r) m' ↔ ∃ e' r', m' = .exc e' r' ∧
+      (e'.cls = e.cls ∧ e'.args = e.args ∧ e'.live = none ∧ e'.isRemote = true ∧ e'.remoteTb = some t ∧
+        ImgMems F p e.mem e'.mem) ∧ ImgMems F p r r' := by
+  cases e with
+  | mk c a l k m =>
+    simp only [ImgMems, ImgT, Exc.cls_mk, Exc.args_mk, Exc.mem_mk]
+    constructor
+    · rintro ⟨e', r', rfl, ⟨h1, h2, h3, h4, h5⟩, h6⟩
+      exact ⟨e', r', rfl, ⟨h1, h2, h3, by simp [Exc.isRemote, h4], by simp [Exc.remoteTb, h4], h5⟩, h6⟩
+    · rintro ⟨e', r', rfl, ⟨h1, h2, h3, _, h4, h5⟩, h6⟩
+      refine ⟨e', r', rfl, ⟨h1, h2, h3, ?_, h5⟩, h6⟩
+      simp only [Exc.remoteTb] at h4
+      split at h4
+      · rename_i t' hk
+        simp only [Option.some.injEq] at h4
+        subst h4
+        exact hk
+      · simp at h4
+
+/-- a bare exception object `e` in the list arrives like a `RemoteException(e)` made by the first
+    hop's process: remote text = prefix ++ its formatted traceback if it has a live one (so it
+    contains the originally formatted traceback), else the remote text it already carried -/
+theorem C15_img_exc (F : Fmt) (p : Text) (e : Exc) (r m' : Mems) :
+    ImgMems F p (.exc e r) m' ↔ ∃ t, wrapText F p e.live e.cause .dflt = some t ∧
+      ImgMems F p (.rem e t r) m' := by
+  simp only [ImgMems]
+  constructor
+  · rintro ⟨e', r', t, rfl, h1, h2, h3⟩
+    exact ⟨t, h1, e', r', rfl, h2, h3⟩
+  · rintro ⟨t, h1, e', r', rfl, h2, h3⟩
+    exact ⟨e', r', t, rfl, h1, h2, h3⟩
+
+theorem C15_img_exc_live (F : Fmt) (p : Text) (e : Exc) (own t : Text) (hl : e.live = some own)
+    (h : wrapText F p e.live e.cause .dflt = some t) : t = p ++ fmtChain F own e.cause ∧ fmtChain F own e.cause <:+: t := by
+  simp only [hl, wrapText, Option.some.injEq] at h
+  subst h
+  exact ⟨rfl, ⟨p, [], by simp⟩⟩
+
 /-- the explicit-`tb` branches of the constructor: a string is used verbatim, a traceback object
     is formatted like the exception's own; class and arguments are kept -/
 theorem C15_explicit_tb (F : Fmt) (e : Exc) (hn : e.mem.ok = true) (p : Text) (ar : TbArg) (hd : ar ≠ .dflt) :
